@@ -86,8 +86,12 @@ func (r *RootEntry) Validate(ctx context.Context, vCfg *config.Validation) types
 	// we use a channel and cumulate all the errors
 	validationResultEntryChan := make(chan *types.ValidationResultEntry, 10)
 
+	verifYield("tree.validate.begin")
+	defer verifYield("tree.validate.end")
+
 	// start validation in a seperate goroutine
 	go func() {
+		verifYield("tree.validate:root")
 		r.sharedEntryAttributes.Validate(ctx, validationResultEntryChan, vCfg)
 		close(validationResultEntryChan)
 	}()
